@@ -21,6 +21,57 @@ TESTV_BRANCHES = (
     "                                                                testv))\n"
     "                    return False\n")
 
+MSF_TESTV_LOOP = (
+    "            for (offset, length, operator, specimen) in testv:\n"
+    "                data = self._read_share_data(f, offset, length)\n"
+    "                if not testv_compare(data, operator, specimen):\n"
+    "                    test_good = False\n"
+    "                    break\n")
+MSF_CHECK_TESTV = (
+    "    def check_testv(self, testv):\n"
+    "        test_good = True\n"
+    "        with open(self.home, 'rb+') as f:\n" + MSF_TESTV_LOOP +
+    "        return test_good\n")
+EMPTY_CHECK_TESTV = (
+    "class EmptyShare:\n\n"
+    "    def check_testv(self, testv):\n"
+    "        test_good = True\n"
+    "        for (offset, length, operator, specimen) in testv:\n"
+    "            data = b\"\"\n"
+    "            if not testv_compare(data, operator, specimen):\n"
+    "                test_good = False\n"
+    "                break\n"
+    "        return test_good\n")
+EMPTY_TESTV_IF = (
+    "            data = b\"\"\n"
+    "            if not testv_compare(data, operator, specimen):\n"
+    "                test_good = False\n"
+    "                break\n")
+MSF_VIA_HELPER = (
+    "    def check_testv(self, testv):\n"
+    "        with open(self.home, 'rb+') as f:\n"
+    "            return _check_testv(\n"
+    "                testv,\n"
+    "                lambda offset, length: self._read_share_data(f, offset, length),\n"
+    "            )\n")
+
+
+def _helper_and_empty(loop_body):
+    return ("def _check_testv(testv, read):\n"
+            "    test_good = True\n"
+            "    for (offset, length, operator, specimen) in testv:\n"
+            "        data = read(offset, length)\n" + loop_body +
+            "    return test_good\n\n\n"
+            "class EmptyShare:\n\n"
+            "    def check_testv(self, testv):\n"
+            "        return _check_testv(testv, lambda offset, length: b\"\")\n")
+
+
+EVAL_TESTV_LOOP = (
+    "        for sharenum in test_and_write_vectors:\n"
+    "            (testv, datav, new_length) = test_and_write_vectors[sharenum]\n" + TESTV_BRANCHES +
+    "        return True\n\n    def _evaluate_read_vectors")
+
 MUTANTS = [
     # ---- C24.1 guarded writes
     M("write-guard-always-true", SRV, "        if testv_is_good:\n            # now apply the write vectors",
@@ -98,6 +149,92 @@ MUTANTS = [
       "                if not EmptyShare().check_testv(testv):\n                    self.log(\"testv failed (empty): [%d] %r\" % (sharenum,\n"
       "                                                                testv))\n                    return False\n",
       "                pass\n", "C24.6"),
+    # ---- C24.6 sibling of the C24-B slip: the verdict of the LAST share only
+    M("request-verdict-is-last-share", SRV, EVAL_TESTV_LOOP,
+      "        testv_is_good = True\n"
+      "        for sharenum in test_and_write_vectors:\n"
+      "            (testv, datav, new_length) = test_and_write_vectors[sharenum]\n"
+      "            share = shares.get(sharenum, EmptyShare())\n"
+      "            testv_is_good = share.check_testv(testv)\n"
+      "            if not testv_is_good:\n"
+      "                self.log(\"testv failed: [%d]: %r\" % (sharenum, testv))\n"
+      "        return testv_is_good\n\n    def _evaluate_read_vectors", "C24.6",
+      note="was ANALYSIS-ERROR (no check_testv *test*) before the verdict was evaluated over assignments too"),
+    M("request-verdict-or-accumulated", SRV, EVAL_TESTV_LOOP,
+      "        testv_is_good = True\n"
+      "        for sharenum in test_and_write_vectors:\n"
+      "            (testv, datav, new_length) = test_and_write_vectors[sharenum]\n"
+      "            share = shares.get(sharenum, EmptyShare())\n"
+      "            testv_is_good = testv_is_good or share.check_testv(testv)\n"
+      "        return testv_is_good\n\n    def _evaluate_read_vectors", "C24.6"),
+    M("benign-request-verdict-accumulated", SRV, EVAL_TESTV_LOOP,
+      "        testv_is_good = True\n"
+      "        for sharenum in test_and_write_vectors:\n"
+      "            (testv, datav, new_length) = test_and_write_vectors[sharenum]\n"
+      "            share = shares.get(sharenum, EmptyShare())\n"
+      "            testv_is_good = testv_is_good and share.check_testv(testv)\n"
+      "        return testv_is_good\n\n    def _evaluate_read_vectors", None),
+    # ---- C24.9 one share's verdict is the conjunction of all its comparisons
+    M("testv-helper-keeps-last-comparison", MUT, MSF_CHECK_TESTV, MSF_VIA_HELPER, "C24.9",
+      edits=[(MUT, EMPTY_CHECK_TESTV, _helper_and_empty("        test_good = testv_compare(data, operator, specimen)\n"))],
+      note="seeded C24-B: deduplicated helper whose loop lost the break and assigns each comparison's result"),
+    M("testv-last-comparison-inline", MUT, MSF_TESTV_LOOP,
+      "            for (offset, length, operator, specimen) in testv:\n"
+      "                data = self._read_share_data(f, offset, length)\n"
+      "                test_good = testv_compare(data, operator, specimen)\n", "C24.9"),
+    M("testv-success-resets-failure", MUT, EMPTY_TESTV_IF,
+      "            data = b\"\"\n"
+      "            if not testv_compare(data, operator, specimen):\n"
+      "                test_good = False\n"
+      "            else:\n"
+      "                test_good = True\n", "C24.9"),
+    M("testv-any-comparison-suffices", MUT, EMPTY_CHECK_TESTV,
+      "class EmptyShare:\n\n"
+      "    def check_testv(self, testv):\n"
+      "        if not testv:\n"
+      "            return True\n"
+      "        return any(testv_compare(b\"\", operator, specimen) for (offset, length, operator, specimen) in testv)\n", "C24.9"),
+    M("testv-only-first-comparison", MUT, MSF_TESTV_LOOP,
+      "            for (offset, length, operator, specimen) in testv:\n"
+      "                data = self._read_share_data(f, offset, length)\n"
+      "                if not testv_compare(data, operator, specimen):\n"
+      "                    test_good = False\n"
+      "                break\n", "C24.9"),
+    M("testv-zero-length-entries-skipped", MUT, MSF_TESTV_LOOP,
+      "            for (offset, length, operator, specimen) in testv:\n"
+      "                if not length:\n"
+      "                    continue\n"
+      "                data = self._read_share_data(f, offset, length)\n"
+      "                if not testv_compare(data, operator, specimen):\n"
+      "                    test_good = False\n"
+      "                    break\n", "C24.9",
+      note="(0, 0, eq, b'x') must fail; skipping the entry accepts it"),
+    M("testv-truncated-vector", MUT, "        for (offset, length, operator, specimen) in testv:\n            data = b\"\"\n",
+      "        for (offset, length, operator, specimen) in testv[:1]:\n            data = b\"\"\n", "C24.9"),
+    M("testv-verdict-inverted-by-wrapper", MUT, MSF_CHECK_TESTV,
+      MSF_VIA_HELPER.replace("return _check_testv(", "return not _check_testv("), "C24.9",
+      edits=[(MUT, EMPTY_CHECK_TESTV, _helper_and_empty(
+          "        if not testv_compare(data, operator, specimen):\n            test_good = False\n            break\n"))]),
+    M("benign-testv-shared-helper", MUT, MSF_CHECK_TESTV, MSF_VIA_HELPER, None,
+      edits=[(MUT, EMPTY_CHECK_TESTV, _helper_and_empty(
+          "        if not testv_compare(data, operator, specimen):\n            test_good = False\n            break\n"))],
+      note="the refactor of seeded C24-B done correctly"),
+    M("benign-testv-all", MUT, EMPTY_CHECK_TESTV,
+      "class EmptyShare:\n\n"
+      "    def check_testv(self, testv):\n"
+      "        return all(testv_compare(b\"\", operator, specimen) for (offset, length, operator, specimen) in testv)\n", None),
+    M("benign-testv-accumulated-without-break", MUT, MSF_TESTV_LOOP,
+      "            for (offset, length, operator, specimen) in testv:\n"
+      "                data = self._read_share_data(f, offset, length)\n"
+      "                test_good = test_good and testv_compare(data, operator, specimen)\n", None),
+    M("benign-testv-early-return", MUT, MSF_CHECK_TESTV,
+      "    def check_testv(self, testv):\n"
+      "        with open(self.home, 'rb+') as f:\n"
+      "            for (offset, length, operator, specimen) in list(testv):\n"
+      "                matches = testv_compare(self._read_share_data(f, offset, length), operator, specimen)\n"
+      "                if not matches:\n"
+      "                    return False\n"
+      "        return True\n", None),
     # ---- C24.7 who may call
     M("unguarded-truncate-api", SRV, "    def enumerate_mutable_shares(self, storage_index: bytes) -> set[int]:",
       "    def truncate_slot(self, storage_index, sharenum):\n"
